@@ -32,10 +32,51 @@ def _sig_key(sig):
     return (sig["property"], sig["rule"], tuple(sorted((k, str(v)) for k, v in sig["facets"].items())))
 
 
-def _run_one(chk, seed=None, replay=None):
+class RunTimeout(BaseException):
+    """A single simulated run exceeded its wall-clock limit: some callback of the event loop (or an in-process
+    invocation) never returned.  A step cap cannot bound that, so a timer interrupts the run."""
+
+
+RUN_WALL_S = 30.0
+
+
+def _run_one(chk, seed=None, replay=None, wall=None):
+    import signal
+
     sc = chk.make_scenario(seed=seed, replay=replay)
-    sc.run()
-    return sc.result()
+    limit = wall or float(os.environ.get("VERIF_RUN_WALL_S", getattr(chk, "RUN_WALL_S", RUN_WALL_S)))
+
+    def on_alarm(signum, frame):
+        raise RunTimeout()
+
+    old = signal.signal(signal.SIGALRM, on_alarm)
+    signal.setitimer(signal.ITIMER_REAL, limit)
+    try:
+        sc.run()
+        signal.setitimer(signal.ITIMER_REAL, 0)
+        return sc.result()
+    except RunTimeout:
+        signal.setitimer(signal.ITIMER_REAL, 0)
+        # a run that never finishes is a violation of the property under check (the system stopped making
+        # progress), reported with the ops executed so far; the replay hangs the same way
+        try:
+            from sim.fsx import FS
+            from sim.cluster import FakePopen
+
+            FS.current = None
+            FakePopen.cluster = None
+        except Exception:
+            pass
+        return dict(seed=seed if seed is not None else (replay or {}).get("seed"), knobs=sc.knobs, ops=list(sc.ops),
+                    digest=sc.trace.digest(),
+                    violation={"property": chk.PROP, "rule": "no_progress", "facets": {"wall_limit": True}},
+                    detail=f"the run did not finish within {limit:.0f} s of wall time: a callback of the event loop or "
+                           f"an invocation never returned (livelock) after op #{len(sc.ops)}",
+                    probes={}, faults={}, sim_seconds=0.0, iterations=0, abstract_states=0, schedule="", nontrivial=True,
+                    extra={})
+    finally:
+        signal.setitimer(signal.ITIMER_REAL, 0)
+        signal.signal(signal.SIGALRM, old)
 
 
 def _worker(prop, verif_seed, lo, hi, tier, wall_cap):
@@ -95,12 +136,14 @@ def minimise(chk, rec, budget_s=60.0, max_cand=2000):
             return False
         tried[0] += 1
         try:
-            r = _run_one(chk, replay=dict(knobs=kn or knobs, ops=ops, seed=rec["seed"]))
+            r = _run_one(chk, replay=dict(knobs=kn or knobs, ops=ops, seed=rec["seed"]), wall=min(float(getattr(chk, "RUN_WALL_S", RUN_WALL_S)), 5.0))
         except Exception:
             return False
         return r["violation"] is not None and _sig_key(r["violation"]) == want
 
     ops = list(rec["ops"])
+    if rec["signature"]["rule"] == "no_progress":
+        max_cand = 12  # every candidate that still hangs costs the wall limit
     if not fails(ops):
         return rec, 0  # not reproducible from the op list: reported as harness error by the caller
     n = 2
